@@ -295,8 +295,10 @@ class C08(runner.Check):
             lambda c, n: {"class": "IndexedArrayU32", "index": np.arange(n).astype(np.uint32), "content": c},
         ]
         no = 0
-        depth = 2 if tier == "quick" else 3
-        for n in (0, 1, 3):
+        # two levels only: the *content* handed to simplify must itself be valid (an option directly inside an option is
+        # what simplify removes; a third level would make the input's content invalid, outside the property's domain)
+        depth = 2
+        for n in ((0, 1, 3) if tier == "quick" else (0, 1, 2, 3, 5, 9)):
             level = [leaf(n), {"class": "ListOffsetArray64", "offsets": np.arange(n + 1).astype(np.int64), "content": leaf(n, np.float64)}]
             for _ in range(depth):
                 nxt = []
